@@ -205,7 +205,7 @@ def _full(spec, ctx, R):
         A = gen.structured(rng, c, m, n)
     else:
         raise ValueError(c)
-    if c in ("graded_columns", "graded_last_pivot"):
+    if c in ("graded_columns", "graded_last_pivot", "graded_rows"):
         # generator ground truth: a full-rank matrix times a non-singular diagonal matrix from the right.  Householder QR is invariant under
         # column scaling (A D = Q (R D)), so the input is full rank in the sense that matters and NO rank-deficiency tag applies, however
         # small the numerical singular values of the scaled matrix are (a threshold-based tag would hand these cases to the findings)
